@@ -141,7 +141,7 @@ func PackRcreate(fc *Fcall, qid *Qid, iounit uint32) error {
 // fc.Data and call SetRreadCount to update the data size to the
 // actual value.
 func InitRread(fc *Fcall, count uint32) error {
-	size := int(4 + count) /* count[4] data[count] */
+	size := 4 + int(count) /* count[4] data[count] */
 	p, err := packCommon(fc, size, Rread)
 	if err != nil {
 		return err
